@@ -49,7 +49,7 @@ ModelRes(S0, e) ==
 MayFire(e) == {p \in Parts : cfg.auto /\ e.st.mf[p + 1]}
 \* (a pause proposed by a timer can also land after its partition was paused by somebody else: PausePartitions
 \* then only clears the stream's ResumeAll flag)
-LateLanding(S) == [S EXCEPT !.resumeAll = FALSE, !.lastRA = FALSE, !.tail = TRUE]
+LateLanding(S) == [S EXCEPT !.resumeAll = FALSE, !.lastRA = FALSE]
 Variants(S, F) == {AutoPausedSet(S, Q \cap Eligible(S)) : Q \in SUBSET F}
                   \cup (IF F # {} /\ S.exists THEN {LateLanding(AutoPausedSet(S, Q \cap Eligible(S))) : Q \in SUBSET F} ELSE {})
 
@@ -134,7 +134,7 @@ TraceInit ==
   /\ exists = e.st.exists /\ paused = B(e.st.paused) /\ ro = B(e.st.ro) /\ leading = B(e.st.leading)
   /\ resumeAll = e.st.ra /\ log = B(e.st.log) /\ subs = RecSubs(e)
   /\ obs = [a |-> "Open", res |-> "ok"]
-  /\ lastRA = FALSE /\ acked = {} /\ refused = {} /\ tail = TRUE /\ tainted = FALSE /\ pend = NoPend
+  /\ lastRA = FALSE /\ acked = {} /\ refused = {} /\ pend = NoPend
   /\ l = 2
 
 TraceNext ==
@@ -144,19 +144,19 @@ TraceNext ==
      /\ Bind(e)
      /\ IF e.a = "Open"
         THEN /\ cfg' = [auto |-> e.cfg.auto, dis |-> e.cfg.dis]
-             /\ lastRA' = FALSE /\ acked' = {} /\ refused' = {} /\ tail' = TRUE /\ tainted' = FALSE /\ pend' = NoPend
+             /\ lastRA' = FALSE /\ acked' = {} /\ refused' = {} /\ pend' = NoPend
              /\ Chk(OpenOK, "I", e, "InitWith")
         ELSE /\ cfg' = cfg
-             /\ lastRA' = Ghost(e).lastRA /\ tail' = Ghost(e).tail /\ tainted' = Ghost(e).tainted /\ acked' = AckedNext(e) /\ refused' = RefusedNext(e) /\ pend' = PendNext(e)
+             /\ lastRA' = Ghost(e).lastRA /\ acked' = AckedNext(e) /\ refused' = RefusedNext(e) /\ pend' = PendNext(e)
              /\ Chk(e.obs.res \in {"panic", "hang"} \/ Fits(e) # {}, "I", e, "step")
              /\ Chk(e.st.logerr = "", "P", e, "X02_LogReadable")
-             /\ Chk((Calm(e) /\ ~tainted /\ e.obs.res \notin {"panic", "hang"}) => PropOf(e), "P", e, "step")
+             /\ Chk((Calm(e) /\ e.obs.res \notin {"panic", "hang"}) => PropOf(e), "P", e, "step")
              /\ Chk((e.a = "Restart" /\ Calm(e)) => P_RestartResumeAll, "P", e, "P_RestartResumeAll")
              /\ Chk(LoopsAgree(e), "I", e, "LoopsAgree")
      /\ Chk(X02_AckedStored', "P", e, "X02_AckedStored")
      /\ Chk(X02_PausedQuiet', "P", e, "X02_PausedQuiet")
      /\ Chk(PausedNoNats(e), "P", e, "X02_PausedQuiet_nats")
-     /\ Chk(~tainted => X02_ActiveServed', "P", e, "X02_ActiveServed")
+     /\ Chk(X02_ActiveServed', "P", e, "X02_ActiveServed")
      /\ Chk(X02_DeletedGone', "P", e, "X02_DeletedGone")
      /\ Chk(NoResurrection(e), "P", e, "X02_NoResurrection")
      /\ Chk(X02_SubsSeeLog', "P", e, "X02_SubsSeeLog")
